@@ -120,8 +120,8 @@ def find_all_paths(graph, start, path=None):
 
 def find_longest_paths(graph, vertex):
     def exist(x, y):
-        """Checks if x is in y with the same order"""
-        return x == y[:len(y)-len(x)+1]
+        """Checks if x is a proper prefix of y"""
+        return len(x) < len(y) and x == y[:len(x)]
     paths = find_all_paths(graph, vertex)
     if len(paths) == 1:
         return paths
